@@ -8,47 +8,120 @@ META = {
     "level": "proof",
     "design_ref": "DESIGN.md §6 C17, notes/design-tmpl.md",
     "text": "Kernel-checked: a render through a cache holding parse(content) equals a fresh parse+render for every value; for every schedule of threads whose steps read shared state and write only private state each thread ends in the state of its sequential run. The hypothesis that a C++ render writes only per-call state is validated, not proved: generated templates are rendered fresh, through a tags cache, and again from that cache into a pre-filled stream; the three texts must agree.",
-    "note": "Data races themselves are not exhibited by this technique; thread runs under TSan are not part of this check.",
+    "note": "Threaded runs (6 threads sharing tags and value) are executed under ASan/UBSan and under ThreadSanitizer; what TSan does not observe in these runs is not exhibited.",
 }
 
 THEOREMS = ["Qentem.Props.C17.cached_eq_fresh", "Qentem.Props.C17.cached_other_value",
             "Qentem.Props.C17.interleave_independent"]
 
 
+def with_pointers(rng, doc):
+    """wrap some container members into pointer values (Value::SetPointerToValue)"""
+    if doc[0] == "o":
+        return ("o", [(k, ("p", with_pointers(rng, d)) if d[0] in "ao" and rng.random() < 0.5 else with_pointers(rng, d)) for k, d in doc[1]])
+    if doc[0] == "a":
+        return ("a", [("p", with_pointers(rng, d)) if d[0] in "ao" and rng.random() < 0.3 else with_pointers(rng, d) for d in doc[1]])
+    return doc
+
+
+LOOP = [60, 108, 111, 111, 112, 32]          # "<loop "
+
+
+def with_sort(rng, units):
+    """add sort="ascend|descend" to some <loop ...> heads"""
+    out, i = [], 0
+    while i < len(units):
+        if units[i:i + 6] == LOOP and rng.random() < 0.6:
+            out += LOOP + G.U('sort="%s" ' % rng.choice(["ascend", "descend"]))
+            i += 6
+        else:
+            out.append(units[i])
+            i += 1
+    return out
+
+
+def pointer_sort_cases(rng):
+    """loop sets that are pointer values, sorted (no group): the render must not reorder the target"""
+    cases = []
+    for _ in range(60):
+        items = [("n", x) for x in rng.sample(range(0, 40), rng.randrange(2, 6))]
+        if rng.random() < 0.3:
+            items = [("s", G.U(w)) for w in rng.sample(["pear", "apple", "fig", "kiwi", "date"], 3)]
+        target = ("a", items) if rng.random() < 0.7 else ("o", [(G.U(k), d) for k, d in zip(["q", "p", "k", "d", "z"], items)])
+        doc = ("o", [(G.U("l"), ("p", target)), (G.U("n"), ("n", 1))])
+        if rng.random() < 0.2:
+            doc = ("p", target)      # the root itself
+            tmpl = '<loop value="v" sort="%s">{var:v},</loop>' % rng.choice(["ascend", "descend"])
+        else:
+            tmpl = '<loop set="l" value="v" sort="%s">{var:v},</loop>{var:n}' % rng.choice(["ascend", "descend"])
+        cases.append((doc, G.U(tmpl)))
+    return cases
+
+
 def run(ctx):
     ctx.gen_constants(["Expr", "Tmpl", "Escape"])
     ctx.prove(["Qentem.Props.C17"], THEOREMS)
     drv = ctx.build_driver()
-    exe = ctx.build_harness("template_harness.cpp")
+    exe = ctx.build_harness("template_harness.cpp", tag="c17")
     if not (drv and exe):
         return
-    g = G.Gen(ctx.rng)
+    rng = ctx.rng
+    g = G.Gen(rng)
     N = 4000 if not ctx.thorough else 40000
-    spec_lines = []
-    for _ in range(N):
-        doc = g.root()
-        _, toks = g.nodes([], 3)
+    spec_lines, docs = [], []
+    for k in range(N):
+        if k % 10 == 9:
+            doc, toks = G.deep_case(rng)
+        else:
+            doc = g.root()
+            _, toks = g.nodes([], 3)
+        docs.append(doc)
         spec_lines.append("tplspec 1 %s %s" % (G.enc(doc), ",".join(toks)))
     spec_out, _ = core.run_lines_parallel(drv, spec_lines, jobs=12, env=None)
-    lines = []
-    for l, o in zip(spec_lines, spec_out):
+    cases = pointer_sort_cases(rng)
+    for doc, o in zip(docs, spec_out):
         t = o.split(" ")
         if len(t) == 4 and t[0] == "P":
-            for w in ("1", "2") if len(lines) % 4 == 0 else ("1",):
-                lines.append("tplcache %s %s %s" % (w, l.split(" ")[2], t[1]))
-    impl, faults = core.run_lines_parallel(exe, lines, jobs=12)
+            units = [int(x) for x in t[1].split(",")] if t[1] != "-" else []
+            cases.append((with_pointers(rng, doc) if rng.random() < 0.5 else doc, with_sort(rng, units) if rng.random() < 0.5 else units))
+    lines = []
+    for k, (doc, units) in enumerate(cases):
+        for w in ("1", "2") if k % 4 == 0 else ("1",):
+            lines.append("tplcache %s %s %s" % (w, G.enc(doc), core.show_units(units)))
+    thr_lines = [l.replace("tplcache", "tplthreads", 1) for l in lines[::5]]
+    impl, faults = core.run_lines_parallel(exe, lines + thr_lines, jobs=12)
+    all_lines = lines + thr_lines
     for i, kind, err in faults:
-        ctx.fail("fault:" + kind, "sanitizer fault in cached/repeated render: " + lines[i][:300], {"line": lines[i], "stderr": err})
+        ctx.fail("fault:" + kind, "sanitizer fault in cached/repeated/threaded render: " + all_lines[i][:300], {"line": all_lines[i], "stderr": err})
     for i, o in enumerate(impl):
-        if o != "C same" and not o.startswith("FAULT"):
-            ctx.fail("cached-differs", "fresh / cached / repeated renders differ: %s -> %s" % (lines[i][:300], o[:300]),
-                     {"line": lines[i], "impl": o})
-    ctx.count("fresh-vs-cached-vs-prefilled", len(lines), len(set(lines)),
+        if o.startswith("FAULT") or o in ("C same", "H same"):
+            continue
+        key = ("value-changed" if "value-changed" in o else "tags-changed" if "tags-changed" in o else
+               "threads-differ" if o.startswith("H") else "cached-differs")
+        ctx.fail(key, "%s: %s -> %s" % (key, all_lines[i][:300], o[:300]), {"line": all_lines[i], "impl": o})
+    ctx.count("fresh-vs-cached-vs-prefilled (value and tags dumped before/after each render)", len(lines), len(set(lines)),
               sample={"stream": "cache", "input": lines[0][:300] if lines else "", "impl": impl[0] if impl else ""})
-    ctx.assumptions += ["a C++ render step writes only per-call state (stream, loop items): validated by the three-way comparison, assumed by interleave_independent",
-                        "thread scheduling / memory-model effects are not exhibited"]
+    ctx.count("6-threads-sharing-tags-and-value", len(thr_lines), len(set(thr_lines)))
+    # ---- the same threaded run under ThreadSanitizer (no ASan) ----
+    tsan_flags = [f for f in core.SAN_FLAGS if not f.startswith("-fsanitize=") and not f.startswith("-fno-sanitize")] + ["-fsanitize=thread"]
+    texe = ctx.build_harness("template_harness.cpp", flags=tsan_flags, tag="tsan")
+    if texe:
+        import os
+        env = dict(os.environ, TSAN_OPTIONS="halt_on_error=1:exitcode=95:report_signal_unsafe=0")
+        tl = thr_lines[::3] if not ctx.thorough else thr_lines
+        timpl, tfaults = core.run_lines_parallel(texe, tl, jobs=6, env=env)
+        for i, kind, err in tfaults:
+            k = "tsan:data-race" if "ThreadSanitizer" in err else "tsan-run:" + kind
+            ctx.fail(k, "ThreadSanitizer report while 6 threads render through shared tags and value: " + tl[i][:300], {"line": tl[i], "stderr": err[-3000:]})
+        for i, o in enumerate(timpl):
+            if o not in ("H same",) and not o.startswith("FAULT"):
+                ctx.fail("threads-differ", "threads differ (TSan build): %s -> %s" % (tl[i][:300], o[:300]), {"line": tl[i], "impl": o})
+        ctx.count("6-threads-under-ThreadSanitizer", len(tl), len(set(tl)))
+        ctx.notes.append("ThreadSanitizer build works in this sandbox: %d threaded lines run under TSan" % len(tl))
+    ctx.assumptions += ["a C++ render step writes only per-call state (stream, loop items): validated by the comparisons and the TSan run, assumed by interleave_independent",
+                        "thread scheduling / memory-model effects beyond what TSan observes in these runs are not exhibited"]
 
 
 FINISH = dict(level="proof",
-              rule="generated well-formed templates x value trees: fresh render, render filling a tags cache, render from that cache into a pre-filled stream; widths 1 and 2",
+              rule="generated well-formed templates (incl. block tags nested 7..13 deep, sort= on loops) x value trees (incl. pointer-to-value members as loop sets): fresh render, render filling a tags cache, render from that cache into a pre-filled stream, Stringify of the value and of every pointer target and the tag dump before/after every render; 6 threads x 3 renders sharing tags and value (ASan build and ThreadSanitizer build); widths 1 and 2",
               checker_cmd="cd lean && lake build Qentem.Props.C17 && lake env lean <#print axioms>")
